@@ -23,7 +23,7 @@ pub static PROP: Prop = Prop {
            deny/allow lists in half of them, 2-50 client addresses (some blocked by the lists), 40-120 datagrams (valid, malformed, \
            NTS) in random order with repeats; odd cases (B): the private TimestampedCache with sizes 1/2/8/64, cut-offs 1 ns..1 h and \
            synthetic instants whose gaps sit at cutoff-1ns / cutoff / cutoff+1ns / far below / far above. Non-trivial = one handled \
-           event; distinct = (part, cache size, cut-off class, same-owner?, gap class, verdict).",
+           event; distinct = (part, cache size, cut-off class, passes lists?, same slot owner?, gap class, pool size class, datagram class, verdict).",
     assumptions: &[
         "'within the cutoff' in the second sentence of the statement is read like the first sentence: less than the cut-off ago; a gap of exactly the cut-off must be allowed",
         "a request 'passed the access lists' by the monitor's own subnet matcher; cases with an address whose list membership the statement leaves open (mapped form inside an IPv6 subnet) are dropped",
@@ -34,7 +34,7 @@ pub static PROP: Prop = Prop {
     cases: |t| t.pick(16_000, 400_000),
     budget_s: |t| t.pick(40, 400),
     run,
-    min_nontrivial: 300,
+    min_nontrivial: 200,
     required_counters: &[
         "a_events", "a_limited_verdicts", "a_completeness_checked", "a_soundness_checked", "a_slot_taken_by_other", "a_blocked_between_repeats", "a_size0_events",
         "a_cutoff0_repeats", "a_size1_checked", "b_events", "b_gap_equal", "b_gap_minus_1ns", "b_gap_plus_1ns", "b_denied", "b_slot_taken_by_other", "b_repeat_while_denied",
@@ -122,7 +122,7 @@ fn part_a(c: &mut Case) {
         script.push(json!({"k": k, "client": ip.to_string(), "passes_lists": pass, "slot": idx, "answered": h.reply.is_some(), "rate_limited": limited, "class": req.truth.class}));
         let cutoff_class = if w.cfg.cutoff.is_zero() { 0u8 } else { 1 };
         let same_owner = idx.map(|i| slot_owner.get(&i) == Some(&ip));
-        c.sig_of(&("A", size, cutoff_class, pass, same_owner, last_pass.contains_key(&ip), limited, h.reply.is_some()));
+        c.sig_of(&("A", size, cutoff_class, pass, same_owner, last_pass.contains_key(&ip), limited, h.reply.is_some(), pool.len() / 10, req.truth.class.as_str()));
         let detail = |script: &Vec<serde_json::Value>| json!({"config": w.cfg.json(), "history": script, "datagram": hex(&req.bytes)});
         if size == 0 {
             c.inc("a_size0_events");
